@@ -84,6 +84,13 @@ func runSessions(r *Run, cases []*RCase, what func(c *RCase, i int, g, m string)
 			}
 		}
 		for _, d := range c.ShapeDiffs {
+			if strings.HasPrefix(d, "after reset: ") {
+				// the INTERNAL state of a reset context differs from a new one's. The model's Reset is "a new context";
+				// this is the tie of that modelling step, not the property: a field a render re-initialises before
+				// use may differ harmlessly. Reported as a broken correspondence unless a render shows the difference.
+				r.TieBreak("Ctx.Reset ≙ NewCtx() (internal state, hook VerifCtxShape): "+d, c.Describe(), d, "")
+				continue
+			}
 			r.Violate("ctx-shape "+d, "a reset context differs from a new one: "+d, c.Describe())
 		}
 		for _, d := range c.Mutated {
@@ -105,6 +112,9 @@ func runSessions(r *Run, cases []*RCase, what func(c *RCase, i int, g, m string)
 func runWatched(r *Run, c *RCase) bool {
 	if r.aborted {
 		return false
+	}
+	if len(c.Tpls) > 0 {
+		guardCase("session tpl="+c.Tpls[len(c.Tpls)-1].Src, c.Describe())
 	}
 	done := make(chan struct{})
 	go func() {
